@@ -86,6 +86,9 @@ func render(v ssa.Value, depth int) string {
 		if n := canonicalRecv(x); n != "" {
 			return n
 		}
+		if n := pinnedParam(x); n != "" {
+			return n
+		}
 		return x.Name()
 	case *ssa.FreeVar:
 		if n := canonicalCell(x); n != "" {
@@ -179,6 +182,14 @@ func render(v ssa.Value, depth int) string {
 		return "closure " + x.Fn.Name()
 	case *ssa.Phi:
 		// a loop-carried or merged variable: named by its source variable (go/ssa keeps it in Comment)
+		// a variable that starts as a parameter carries the parameter's (pinned) name
+		for _, e := range x.Edges {
+			if prm, ok := e.(*ssa.Parameter); ok && prm.Name() == x.Comment {
+				if n := pinnedParam(prm); n != "" {
+					return n
+				}
+			}
+		}
 		if x.Comment != "" {
 			return x.Comment
 		}
@@ -824,7 +835,10 @@ func canonicalCell(v ssa.Value) string {
 			}
 		}
 		if n == 1 && prm != nil {
-			return canonicalRecv(prm)
+			if r := canonicalRecv(prm); r != "" {
+				return r
+			}
+			return pinnedParam(prm) // a parameter captured by a function literal lives in a cell
 		}
 	}
 	return ""
@@ -1011,4 +1025,23 @@ func neverNil(v ssa.Value) bool {
 		}
 	}
 	return false
+}
+
+// pinnedParam: the name the parameter has on the pinned tree (same function — possibly renamed —, same position).
+func pinnedParam(x *ssa.Parameter) string {
+	fn := x.Parent()
+	if fn == nil || fn.Parent() != nil || fn.Pkg == nil {
+		return ""
+	}
+	names, ok := KnownParams[PinnedFull(fn)]
+	if !ok {
+		return ""
+	}
+	list := strings.Split(names, ",")
+	for i, p := range fn.Params {
+		if p == x && i < len(list) {
+			return list[i]
+		}
+	}
+	return ""
 }
